@@ -9,6 +9,24 @@ TW = 'beartype/_data/check/code/func/datacodefuncwrap.py'
 CD = 'beartype/_check/cls/call/calldatadecorfunc.py'
 FLOOR_APPLIED = 12
 
+RF = 'beartype/_util/hint/pep/proposal/pep484585/pep484585func.py'
+CONV = 'beartype/_check/convert/convmain.py'
+
+
+def _reduce_first(tree):
+    from .variant import find_def
+    f = find_def(tree, 'sanify_hint_root_func')
+    if f is None:
+        return False
+    idx = [i for i, st in enumerate(f.body) if isinstance(st, ast.If) and 'ARG_NAME_RETURN' in ast.unparse(st.test)]
+    co = [i for i, st in enumerate(f.body) if isinstance(st, ast.Assign) and 'coerce_func_hint_root' in ast.unparse(st.value)]
+    if len(idx) != 1 or len(co) != 1 or idx[0] < co[0]:
+        return False
+    st = f.body.pop(idx[0])
+    f.body.insert(co[0], st)
+    return True
+
+
 VARIANTS = {
     # ---- R1: same kind of callable ---------------------------------------------------------
     'coroutine-wrapper-is-sync': tseeded(CD, lambda t: replace_where(
@@ -50,6 +68,18 @@ VARIANTS = {
     'agen-priming-unguarded': Variant('seeded', [T525], sub_nc(T525, "    try:\n        __beartype_agen_yield_pith = await anext({VAR_NAME_PITH_ROOT})\n    except StopAsyncIteration:\n        return\n    else:\n",
                                      "    __beartype_agen_yield_pith = await anext({VAR_NAME_PITH_ROOT})\n    if True:\n"), 'C08.R3',
                                      'an empty async generator raises RuntimeError(async generator raised StopAsyncIteration)'),
+    # ---- R4: return annotations by kind ------------------------------------------------------
+    'coroutine-return-checked-against-send-type': tseeded(RF, lambda t: replace_where(
+        t, src_is('hint = hint_args[-1]'), lambda n: stmts('hint = hint_args[1]')[0], scope='reduce_hint_pep484585_func_return'), 'C08.R4',
+        'the awaited value of a coroutine annotated Coroutine[Y, S, R] is checked against S'),
+    'coroutine-return-not-reduced': tseeded(RF, lambda t: replace_where(
+        t, src_is('hint = hint_args[-1]'), lambda n: stmts('pass')[0], scope='reduce_hint_pep484585_func_return'), 'C08.R4',
+        'the awaited value is checked against Coroutine[...] itself: every correct call is a violation'),
+    'generator-return-hint-unvalidated': tseeded(RF, lambda t: replace_where(
+        t, lambda n: isinstance(n, ast.If) and ast.unparse(n.test) == 'is_func_sync_generator(func)',
+        lambda n: (setattr(n, 'body', stmts('pass')) or n), scope='reduce_hint_pep484585_func_return'), 'C08.R4'),
+    'return-reduced-before-strings-are-resolved': tseeded(CONV, lambda t: _reduce_first(t), 'C08.R4',
+                                                          'with `from __future__ import annotations` the reducer sees a string'),
     # ---- neutral ----------------------------------------------------------------------------
     'n-roundtrip-calldata': roundtrip(CD),
     'n-roundtrip-pep525': roundtrip(T525),
